@@ -210,11 +210,15 @@ def cache_threading(ctx, rule):
     P = ctx.P
     # inside the decoder: the cache parameter itself is what the header parser updates
     ctx.rule(rule, 'a decoder function that receives the persistent cache (&mut AtomCache) hands that very cache to whatever updates it; '
-             'if it works on a copy, every successful return is preceded by writing the copy back', floor=3)
-    for p in sorted(q for q in ctx.F.bodies if q.startswith(DEC) and ctx.F.bodies[q]['kind'] == 'Fn'):
+             'if it works on a copy, every return - the error returns too - is preceded by writing the copy back (the peer keeps the entries of a header whose message this side rejects)', floor=3)
+    for p in sorted(q for q in ctx.F.bodies if (q.startswith(DEC) and ctx.F.bodies[q]['kind'] == 'Fn') or (q.startswith('edp_client::connection::') and ctx.F.bodies[q]['kind'] in ('Fn', 'AssocFn', 'Closure'))):
         DB = P.B(p)
         params = [i for i in range(1, DB.b['argc'] + 1) if 'mut' in DB.local_ty(i) and 'AtomCache' in DB.local_ty(i)]
-        if not params:
+        if not params and not p.startswith(DEC):
+            # the connection's own cache is the field: `&mut self.atom_cache`
+            if not any('AtomCache' in str(t_.get('aty')) for b_, t_ in DB.calls()):
+                continue
+        elif not params:
             continue
         k = 0
         for bb, t in DB.calls():
@@ -226,20 +230,87 @@ def cache_threading(ctx, rule):
                 root = receiver_root(DB, t['args'][i])[0]
                 vp = value_path(DB, t['args'][i])
                 copied = any(isinstance(x, str) and any(x.endswith(y) for y in ('::clone', '::to_owned', '::default', '::new')) for x in vp)
-                if root is not None and root[0] == 'arg' and root[1] in params and not copied:
-                    ctx.ok(rule, inst, 'passes its own cache parameter', ctx.where(DB, bb))
+                own_field = root is not None and root[0] == 'arg' and 'atom_cache' in [str(x).replace('upvar:', '') for x in (receiver_root(DB, t['args'][i])[1] or ())]
+                if root is not None and root[0] == 'arg' and (root[1] in params or own_field) and not copied:
+                    ctx.ok(rule, inst, 'passes its own cache', ctx.where(DB, bb))
                     continue
-                # a copy: every Ok return reachable from here must be dominated by a store through the parameter
-                oks = [b3 for b3, j3, st3 in DB.stmts() if st3['k'] == '=' and DB.is_ret_slot(st3['pl']['l']) and st3['rv']['k'] == 'agg' and st3['rv'].get('var') == 'Ok' and b3 in DB.reachable(bb)]
-                stores = [b3 for b3, j3, st3 in DB.stmts() if st3['k'] == '=' and st3['pl']['l'] in params and st3['pl'].get('p') == ['*']]
+                if not params and not copied:
+                    continue
+                # a copy: EVERY return reachable from here - the error returns too - must be dominated by a store through the parameter / field:
+                # the peer has entered the header's entries into its own cache whatever this side thinks of the rest of the message
+                oks = [b3 for b3, j3, st3 in DB.stmts() if st3['k'] == '=' and DB.is_ret_slot(st3['pl']['l']) and st3['rv']['k'] == 'agg' and st3['rv'].get('var') in ('Ok', 'Err') and b3 in DB.reachable(bb)]
+                oks += [b3 for b3, t3 in DB.calls() if b3 in DB.reachable(bb) and DB.is_ret_slot(t3['dst']['l']) and not t3['dst'].get('p') and any(n_.endswith('FromResidual::from_residual') for n_ in callee_names(t3))]
+                stores = [b3 for b3, j3, st3 in DB.stmts() if st3['k'] == '=' and ((st3['pl']['l'] in params and st3['pl'].get('p') == ['*'])
+                          or ((st3['pl'].get('p') or []) and isinstance(st3['pl']['p'][-1], dict) and st3['pl']['p'][-1].get('n') == 'atom_cache'))]
                 missing = [b3 for b3 in oks if not any(DB.block_dominates(s_, b3) for s_ in stores)]
                 if oks and not missing:
-                    ctx.ok(rule, inst, 'works on a copy that is written back before every successful return', ctx.where(DB, bb))
+                    ctx.ok(rule, inst, 'works on a copy that is written back before every return, the error returns included', ctx.where(DB, bb))
                 else:
-                    ctx.bad(rule, inst, '%s hands a copy (%s) to the cache-updating callee instead of its own cache parameter, and %d of %d successful returns are not preceded by writing it back: '
+                    ctx.bad(rule, inst, '%s hands a copy (%s) to the cache-updating callee instead of its own cache parameter, and %d of %d returns are not preceded by writing it back: '
                             'entries created or overwritten by this message are lost for the following ones' % (p.rsplit('::', 1)[1], ' <- '.join(str(x).rsplit('::', 1)[-1] for x in vp), len(missing), len(oks)),
                             ctx.where(DB, missing[0] if missing else bb), key='PROV:%s:cache-copy-not-written-back' % p)
 
+    # nothing takes entries out of the persistent cache or replaces it by an empty one
+    grow = rule + '/only-added-to'
+    ctx.rule(grow, 'the persistent atom cache is only ever added to: no function of the decoder or the connection removes, clears or filters its entries or puts a fresh cache in its place '
+             '(the peer refers to every entry it has ever announced by number, whatever became of the message that announced it)', floor=1)
+    SHRINK = ('::remove', '::remove_entry', '::clear', '::retain', '::drain', '::extract_if', '::pop_first', '::pop_last', '::truncate', '::split_off', '::take')
+    n_ins = 0
+    for p in sorted(q for q in ctx.F.bodies if (q.startswith(DEC) or q.startswith('edp_client::connection::')) and '::tests::' not in q):
+        DB = P.B(p)
+        in_cache_impl = p.startswith(DEC + 'AtomCache::')
+        for bb, t in DB.calls():
+            if bb not in DB.live_blocks() or not t.get('args'):
+                continue
+            rty = (t.get('aty') or [''])[0]
+            names = callee_names(t)
+            rr = receiver_root(DB, t['args'][0])
+            path_ = [str(x).replace('upvar:', '') for x in (rr[1] or ())]
+            root_is_cache = rr[0] is not None and rr[0][0] == 'arg' and isinstance(rr[0][1], int) and 'AtomCache' in DB.local_ty(rr[0][1])
+            on_cache = 'AtomCache' in rty or ((in_cache_impl or root_is_cache) and 'atoms' in path_) or 'atom_cache' in path_
+            if not on_cache:
+                continue
+            if any(n.endswith('::insert') for n in names):
+                n_ins += 1
+                ctx.ok(grow, '%s:insert' % p.rsplit('::', 1)[1] if not in_cache_impl else 'AtomCache::%s:insert' % p.rsplit('::', 1)[1], 'adds an entry', ctx.where(DB, bb))
+            if any(n.endswith(x) for n in names for x in SHRINK) and not any(n.startswith(DEC + 'AtomCache::') and not n.endswith(SHRINK) for n in names):
+                ctx.bad(grow, '%s:%s' % (p.rsplit('::', 1)[1], names[0].rsplit('::', 1)[1]),
+                        '%s takes entries out of the persistent atom cache (%s): a later message of the peer that refers to such an entry by number resolves to another atom or fails' % (p.replace(DEC, '').replace('edp_client::connection::', ''), names[0].rsplit('::', 1)[1]),
+                        ctx.where(DB, bb), key='SHAPE:%s:cache-shrinks:%s' % (p, names[0].rsplit('::', 1)[1]))
+        # a fresh cache stored over the existing one
+        for bb, j, st in DB.stmts():
+            if st['k'] != '=' or bb not in DB.live_blocks():
+                continue
+            pl = st['pl']
+            pp = pl.get('p') or []
+            tgt = (pp and isinstance(pp[-1], dict) and pp[-1].get('n') == 'atom_cache') or (pp == ['*'] and 'AtomCache' in DB.local_ty(pl['l']) and 1 <= pl['l'] <= DB.b['argc'])
+            if not tgt:
+                continue
+            vp = value_path(DB, st['rv'].get('op') or st['rv']) if st['rv']['k'] in ('use', 'move', 'copy') or st['rv'].get('op') else []
+            if any(isinstance(x, str) and (x.endswith('AtomCache::new') or x.endswith('::default')) for x in vp):
+                ctx.bad(grow, '%s:reset' % p.rsplit('::', 1)[1], '%s puts a fresh, empty cache in the place of the persistent one: every entry the peer announced before is gone' % p.rsplit('::', 1)[1],
+                        ctx.where(DB, bb), key='SHAPE:%s:cache-reset' % p)
+    if n_ins == 0:
+        ctx.ok(grow, 'none', 'no insert found (the geometry rule reports a missing writer)')
+    # ... and what a header announces is entered where it is read, not parked for a later step that an error return skips
+    for p in sorted(q for q in ctx.F.bodies if q.startswith(DEC) and ctx.F.bodies[q]['kind'] == 'Fn'):
+        DB = P.B(p)
+        if not any('mut' in DB.local_ty(i) and 'AtomCache' in DB.local_ty(i) for i in range(1, DB.b['argc'] + 1)):
+            continue
+        reads = [bb for bb, t in DB.calls() if bb in DB.live_blocks() and any(n.endswith('::from_utf8') or n.endswith('::from_utf8_lossy') for n in callee_names(t))]
+        if not reads:
+            continue
+        ins = []
+        for bb, t in DB.calls():
+            if bb in DB.live_blocks() and t.get('args') and any(n.endswith('HashMap::<K, V, S, A>::insert') or n.endswith('::insert') for n in callee_names(t)):
+                rr = receiver_root(DB, t['args'][0])
+                if rr[0] is not None and rr[0][0] == 'arg' and isinstance(rr[0][1], int) and 'AtomCache' in DB.local_ty(rr[0][1]):
+                    ins.append(bb)
+        if ins and any(DB.reachable(r) and i_ in DB.reachable(r) for r in reads for i_ in ins):
+            ctx.ok(grow, '%s:entered-where-read' % p.rsplit('::', 1)[1], 'the function that reads a header entry\'s text enters it into the cache\'s map itself', ctx.where(DB, ins[0]))
+        else:
+            ctx.bad(grow, '%s:entered-where-read' % p.rsplit('::', 1)[1], '%s reads the text of new header entries but does not enter them into the cache\'s map: they are parked somewhere and a later step has to move them - '
+                    'a step that an error return between the two skips, although the peer has announced them' % p.rsplit('::', 1)[1], ctx.where(DB, reads[0]), key='SHAPE:%s:entries-not-entered-where-read' % p)
 
 
 def run(ctx):
